@@ -35,6 +35,7 @@ HOSTS: list[tuple[str | None, bool | None]] = [
     ("evillocalhost", False), ("localhost.evil.com", False), ("127.0.0.1.evil.com", False), ("example.com", False), (None, False), ("", False),
     ("127.0.0.2", False), ("127.0.0.10", False), ("1127.0.0.1", False), ("[::1]", False), ("[::1]:5000", False), ("xn--lcalhost-54a", False),
     ("l\xf6calhost", False), ("sub.l\xf6calhost", False), ("LOCALHOST", None), ("Sub.Localhost:80", None), ("a..localhost", False), ("a" * 70 + ".localhost", False),
+    ("evil.127.0.0.1", False), ("sub.127.0.0.1:5000", False), ("localhost.127.0.0.1", False),
     (".localhost", None), ("localhost.", None), ("xn--a.localhost", None), ("evil.com:localhost", False), ("localhost@evil.com", False), ("evil.com#.localhost", None),
 ]
 TRUSTED_IDX = [i for i, (_, v) in enumerate(HOSTS) if v is True]
@@ -458,7 +459,7 @@ class DebuggerGates(Scenario):
 # host validation (a pure function: workload - it rides along because the gates call it)
 
 LABELS = ["localhost", "example", "com", "evil", "a", "sub", "xn--nxasmq6b", "b\xfccher", "", "a" * 64, "127", "0", "1", "LOCALHOST", "exa mple", "-x", "x_y"]
-TRUSTED_LISTS = [[".localhost", "127.0.0.1"], ["example.com"], [".example.com"], ["example.com:8080"], [".com"], ["b\xfccher.example"], ["localhost"], [], ["127.0.0.1", "[::1]"], [".a." + "b" * 70]]
+TRUSTED_LISTS = [[".localhost", "127.0.0.1"], [".a.test", "b.test"], ["b.test", ".a.test"], ["example.com"], [".example.com"], ["example.com:8080"], [".com"], ["b\xfccher.example"], ["localhost"], [], ["127.0.0.1", "[::1]"], [".a." + "b" * 70]]
 
 
 class HostValidation(Scenario):
@@ -471,7 +472,14 @@ class HostValidation(Scenario):
     rule = "workload clause; non-trivial = host and trusted list both non-empty; distinct = (host, trusted list)"
 
     def generate(self, rng: random.Random, tier: str) -> dict:
-        k = rng.randrange(7)
+        k = rng.randrange(9)
+        trusted = rng.choice(TRUSTED_LISTS)
+        if k >= 7 and trusted:
+            # derived from the list itself: a subdomain, a look-alike or the exact name of one of its entries
+            ref = rng.choice(trusted)
+            bare = ref[1:] if ref.startswith(".") else ref
+            host = rng.choice(["evil." + bare, "a.b." + bare, "evil" + bare, bare + ".evil.com", bare, bare.upper(), bare + ":8080", "x-" + bare])
+            return {"host": host, "trusted": trusted, "scheme": rng.choice(["http", "https"])}
         if k == 0:
             host = rng.choice([h for h, _ in HOSTS if h is not None])
         elif k == 1:
@@ -480,7 +488,7 @@ class HostValidation(Scenario):
             host = ".".join(rng.choice(LABELS) for _ in range(rng.choice([1, 2, 2, 3, 4])))
             if rng.random() < 0.3:
                 host += rng.choice([":80", ":8080", ":", ":abc", ":443"])
-        return {"host": host, "trusted": rng.choice(TRUSTED_LISTS), "scheme": rng.choice(["http", "https"])}
+        return {"host": host, "trusted": trusted, "scheme": rng.choice(["http", "https"])}
 
     def execute(self, case: dict) -> Outcome:
         from werkzeug.exceptions import SecurityError
